@@ -228,23 +228,28 @@ Definition apply_delete (c : cfg) (s : state) : outcome :=
     | Some r => Applied (St None (st_idx s)) (OData (Some r))
     end
   | ResB =>
-    match idxs c with
-    | Some ks =>
-      match st_val s with
-      | None => Applied s (OData None)
-      | Some r =>
-        if fits c r then Applied (St None (idx_delete 0 ks r (st_idx s))) (OData (Some r))
-        else Failed s                                    (* unmarshal error inside the transaction *)
-      end
+    match st_val s with
     | None =>
-      match st_val s with
+      match idxs c with
+      | Some _ => Applied s (OData None)
       | None => Failed s                                 (* json.Unmarshal(nil): unexpected end of input *)
-      | Some r =>
-        (* the delete is committed BEFORE the value is unmarshalled into Type *)
-        if fits c r then Applied (St None (st_idx s)) (OData (Some r))
-        else Failed (St None (st_idx s))
       end
+    | Some r =>
+      (* the value is unmarshalled into Type inside the transaction, before txn.Delete *)
+      if fits c r then
+        Applied (St None (match idxs c with Some ks => idx_delete 0 ks r (st_idx s) | None => st_idx s end))
+                (OData (Some r))
+      else Failed s
     end
+  end.
+
+(* resbadger applyDelete as it was before the fix ec218ca: without an index set the delete was
+   committed BEFORE the value was unmarshalled into Type *)
+Definition apply_delete_v0 (c : cfg) (s : state) : outcome :=
+  match c_pkg c, idxs c, st_val s with
+  | ResB, None, Some r =>
+    if fits c r then Applied (St None (st_idx s)) (OData (Some r)) else Failed (St None (st_idx s))
+  | _, _, _ => apply_delete c s
   end.
 
 (* ---- get handler: response to a get request / result of Value() ---- *)
